@@ -7,7 +7,6 @@
 //                                                            add_answer / add_authority / add_additional
 //   reparse                                                  current := DNS(current.serialize())
 //   ser                                                      print serialize()
-//   soa <hex>                                                DNS::soa_record(buffer, size) (typed SOA decoding)
 //
 // After every op one canonical line: result, header counts, the three section offsets, records_data_ and the
 // four section getters (each may throw on its own).  Compiled with -fno-access-control to observe the private state.
@@ -144,15 +143,6 @@ int main() {
         if (w[0] == "ser") {
             PDU::serialization_type s = d->serialize();
             return "ser " + to_hex(s.data(), s.size());
-        }
-        if (w[0] == "soa" && w.size() >= 2) {
-            bytes b;
-            if (!parse_hex(w[1], b)) return "bad-op";
-            DNS::soa_record s(b.data(), uint32_t(b.size()));
-            std::ostringstream o;
-            o << "soa " << shex(s.mname()) << " " << shex(s.rname()) << " " << s.serial() << " " << s.refresh() << " "
-              << s.retry() << " " << s.expire() << " " << s.minimum_ttl();
-            return o.str();
         }
         return "bad-op";
     });
